@@ -417,6 +417,20 @@ impl World {
 		if !removed.is_empty() {
 			self.last_reorg_step = self.step;
 		}
+		if !readmit && self.readmit_foreign {
+			// only what live nodes handed to their broadcasters is lost (they are responsible for
+			// broadcasting it again); transactions of parties that are gone, of the miner and of
+			// the harness's own wallets stay in the mempool as they would in reality
+			for tx in removed.iter() {
+				let txid = tx.compute_txid();
+				let own = self.nodes.iter().any(|x| {
+					x.live.is_some() && !x.gone && x.broadcaster.first_seen.lock().unwrap().contains_key(&txid)
+				});
+				if !own && !self.chain.setup_txids.contains(&txid) {
+					let _ = self.chain.admit_ext(tx, true, true);
+				}
+			}
+		}
 		self.oracle.last_fee.clear();
 		self.oracle.last_bump_rate.clear();
 		self.out.bump(&format!("fault:reorg_depth_{}", depth.min(7)));
